@@ -272,3 +272,118 @@ void *X__ZNKSt11logic_error4whatEv(void *self) { (void)self; return vf_what_text
 void *X__ZNKSt9exception4whatEv(void *self) { (void)self; return vf_what_text; }
 void X__ZNSt7__cxx1112basic_stringIcSt11char_traitsIcESaIcEED2Ev(void *s) { str_dispose(s); }
 void X__ZNSt7__cxx1112basic_stringIcSt11char_traitsIcESaIcEED1Ev(void *s) { str_dispose(s); }
+
+/* ---------------------------------------------------------------- red-black tree support of std::map / std::set
+ * (libstdc++ src/c++98/tree.cc re-expressed in C over the node layout
+ *  { int color; node *parent, *left, *right; }); validated differentially each run. */
+struct vf_rb { uint32_t color; struct vf_rb *parent, *left, *right; };   /* color: 0 red, 1 black */
+
+static struct vf_rb *vf_rb_increment(struct vf_rb *x)
+{
+  if (x->right != 0) {
+    x = x->right;
+    while (x->left != 0) x = x->left;
+  } else {
+    struct vf_rb *y = x->parent;
+    while (x == y->right) { x = y; y = y->parent; }
+    if (x->right != y) x = y;
+  }
+  return x;
+}
+static struct vf_rb *vf_rb_decrement(struct vf_rb *x)
+{
+  if (x->color == 0 && x->parent->parent == x) x = x->right;
+  else if (x->left != 0) {
+    struct vf_rb *y = x->left;
+    while (y->right != 0) y = y->right;
+    x = y;
+  } else {
+    struct vf_rb *y = x->parent;
+    while (x == y->left) { x = y; y = y->parent; }
+    x = y;
+  }
+  return x;
+}
+void *X__ZSt18_Rb_tree_incrementPSt18_Rb_tree_node_base(void *x) { return vf_rb_increment((struct vf_rb *)x); }
+void *X__ZSt18_Rb_tree_incrementPKSt18_Rb_tree_node_base(void *x) { return vf_rb_increment((struct vf_rb *)x); }
+void *X__ZSt18_Rb_tree_decrementPSt18_Rb_tree_node_base(void *x) { return vf_rb_decrement((struct vf_rb *)x); }
+void *X__ZSt18_Rb_tree_decrementPKSt18_Rb_tree_node_base(void *x) { return vf_rb_decrement((struct vf_rb *)x); }
+
+static void vf_rb_rotate_left(struct vf_rb *x, struct vf_rb **root)
+{
+  struct vf_rb *y = x->right;
+  x->right = y->left;
+  if (y->left != 0) y->left->parent = x;
+  y->parent = x->parent;
+  if (x == *root) *root = y;
+  else if (x == x->parent->left) x->parent->left = y;
+  else x->parent->right = y;
+  y->left = x;
+  x->parent = y;
+}
+static void vf_rb_rotate_right(struct vf_rb *x, struct vf_rb **root)
+{
+  struct vf_rb *y = x->left;
+  x->left = y->right;
+  if (y->right != 0) y->right->parent = x;
+  y->parent = x->parent;
+  if (x == *root) *root = y;
+  else if (x == x->parent->right) x->parent->right = y;
+  else x->parent->left = y;
+  y->right = x;
+  x->parent = y;
+}
+void X__ZSt29_Rb_tree_insert_and_rebalancebPSt18_Rb_tree_node_baseS0_RS_(uint8_t insert_left, void *xv, void *pv, void *hv)
+{
+  struct vf_rb *x = (struct vf_rb *)xv, *p = (struct vf_rb *)pv, *header = (struct vf_rb *)hv;
+  struct vf_rb **root = &header->parent;
+  x->parent = p; x->left = 0; x->right = 0; x->color = 0;
+  if (insert_left) {
+    p->left = x;
+    if (p == header) { header->parent = x; header->right = x; }
+    else if (p == header->left) header->left = x;
+  } else {
+    p->right = x;
+    if (p == header->right) header->right = x;
+  }
+  while (x != *root && x->parent->color == 0) {
+    struct vf_rb *xpp = x->parent->parent;
+    if (x->parent == xpp->left) {
+      struct vf_rb *y = xpp->right;
+      if (y && y->color == 0) { x->parent->color = 1; y->color = 1; xpp->color = 0; x = xpp; }
+      else {
+        if (x == x->parent->right) { x = x->parent; vf_rb_rotate_left(x, root); }
+        x->parent->color = 1; xpp->color = 0; vf_rb_rotate_right(xpp, root);
+      }
+    } else {
+      struct vf_rb *y = xpp->left;
+      if (y && y->color == 0) { x->parent->color = 1; y->color = 1; xpp->color = 0; x = xpp; }
+      else {
+        if (x == x->parent->left) { x = x->parent; vf_rb_rotate_right(x, root); }
+        x->parent->color = 1; xpp->color = 0; vf_rb_rotate_left(xpp, root);
+      }
+    }
+  }
+  (*root)->color = 1;
+}
+
+/* ---------------------------------------------------------------- misc libc used by the dfs sources */
+static int32_t vf_errno_cell;
+void *X___errno_location(void) { return &vf_errno_cell; }
+uint64_t X_strtol(void *nptr, void *endptr, uint32_t base)
+{
+  /* base-10 model: optional spaces, optional sign, digits; saturation sets errno=ERANGE(34) */
+  const uint8_t *s = (const uint8_t *)nptr;
+  uint64_t i = 0; int neg = 0, any = 0; uint64_t v = 0; int over = 0;
+  (void)base;
+  while (s[i] == ' ' || (s[i] >= 9 && s[i] <= 13)) i++;
+  if (s[i] == '+' || s[i] == '-') { neg = s[i] == '-'; i++; }
+  while (s[i] >= '0' && s[i] <= '9') {
+    if (v > (0x7fffffffffffffffull - (uint64_t)(s[i] - '0')) / 10) over = 1; else v = v * 10 + (uint64_t)(s[i] - '0');
+    i++; any = 1;
+  }
+  if (endptr) *(const uint8_t **)endptr = any ? s + i : s;
+  if (over) { vf_errno_cell = 34; return neg ? 0x8000000000000000ull : 0x7fffffffffffffffull; }
+  return neg ? (uint64_t)(0 - v) : v;
+}
+void *X_strerror(uint32_t e) { (void)e; return vf_what_text; }
